@@ -199,8 +199,22 @@ Proof.
   - split; [exact I | reflexivity].
 Qed.
 
-Lemma ps_isall_spec ps : ps_isall ps = true <-> ps = ps_make true.
-Proof. unfold ps_isall. apply ps_equal_spec. Qed.
+Lemma ps_isall_iff ps : ps_isall ps = true <-> ps_ports ps = ifull minPort maxPort /\ ps_excl ps = [].
+Proof.
+  unfold ps_isall. rewrite andb_true_iff, iset_eqb_spec. destruct (ps_excl ps); split; intros [H1 H2]; (split; [exact H1|]);
+    try reflexivity; discriminate H2.
+Qed.
+Lemma ps_isall_make : ps_isall (ps_make true) = true.
+Proof. reflexivity. Qed.
+(* on name-free sets IsAll is still "equal to the full port set" *)
+Lemma ps_isall_spec ps : ps_named ps = [] -> (ps_isall ps = true <-> ps = ps_make true).
+Proof.
+  intros Hn. rewrite ps_isall_iff. split.
+  - intros [H1 H2]. destruct ps as [pp nn ee]. cbn [ps_ports ps_named ps_excl] in *. subst. reflexivity.
+  - intros ->. split; reflexivity.
+Qed.
+Lemma ps_isall_full_mem ps n : ps_isall ps = true -> imem n (ps_ports ps) = valid_port n.
+Proof. intros H. apply ps_isall_iff in H. destruct H as [H _]. rewrite H, ifull_mem. reflexivity. Qed.
 
 Lemma ps_full_mem n : imem n (ps_ports (ps_make true)) = valid_port n.
 Proof. unfold ps_make. cbn [ps_ports]. rewrite ifull_mem. reflexivity. Qed.
@@ -360,15 +374,28 @@ Qed.
 Lemma valid_min : valid_port minPort = true.
 Proof. reflexivity. Qed.
 
-Lemma cs_iawa_spec c :
+Lemma cs_iawa_gen c :
   cs_is_all_without_allowall c = true <->
-  cs_all c = false /\ forall p, cs_get c p = Some (ps_make true).
+  cs_all c = false /\ forall p, exists ps, cs_get c p = Some ps /\ ps_isall ps = true.
 Proof.
   unfold cs_is_all_without_allowall. rewrite andb_true_iff, negb_true_iff, forallb_protos.
   split; intros [Ha H]; (split; [exact Ha|]); intros p; specialize (H p).
-  - destruct (cs_get c p) as [ps|]; [|discriminate H]. apply ps_isall_spec in H. subst ps.
-    reflexivity.
-  - rewrite H. apply ps_isall_spec. reflexivity.
+  - destruct (cs_get c p) as [ps|]; [|discriminate H]. exists ps. split; [reflexivity|exact H].
+  - destruct H as (ps & E & Hi). rewrite E. exact Hi.
+Qed.
+Lemma cs_iawa_intro c :
+  cs_all c = false -> (forall p, cs_get c p = Some (ps_make true)) -> cs_is_all_without_allowall c = true.
+Proof. intros Ha H. apply cs_iawa_gen. split; [exact Ha|]. intros p. exists (ps_make true). split; [apply H|reflexivity]. Qed.
+(* on sets whose stored port sets are name-free: every protocol is stored with the full port set *)
+Lemma cs_iawa_spec c :
+  (forall p ps, cs_get c p = Some ps -> ps_named ps = []) ->
+  (cs_is_all_without_allowall c = true <->
+   cs_all c = false /\ forall p, cs_get c p = Some (ps_make true)).
+Proof.
+  intros Hnum. split.
+  - intros H. apply cs_iawa_gen in H. destruct H as [Ha H]. split; [exact Ha|]. intros p.
+    destruct (H p) as (ps & E & Hi). rewrite E. f_equal. apply (ps_isall_spec ps (Hnum p ps E)). exact Hi.
+  - intros [Ha H]. apply cs_iawa_intro; assumption.
 Qed.
 
 Lemma nonempty_member (s : iset) : canon s -> s <> [] -> exists x, imem x s = true.
@@ -624,8 +651,8 @@ Proof. intros H p ps. rewrite cs_get_map. apply H. Qed.
 Lemma cs_check_all_denote c p n : cs_denote (cs_check_all c) p n = cs_denote c p n.
 Proof.
   unfold cs_check_all. destruct (cs_is_all_without_allowall c) eqn:E; [|reflexivity].
-  apply cs_iawa_spec in E. destruct E as [Ea Eg].
-  rewrite cs_make_denote, (cs_denote_eq c), Ea, Eg. cbn [opt_mem orb]. rewrite ps_full_mem.
+  apply cs_iawa_gen in E. destruct E as [Ea Eg]. destruct (Eg p) as (ps & Eps & Hi).
+  rewrite cs_make_denote, (cs_denote_eq c), Ea, Eps. cbn [opt_mem orb]. rewrite (ps_isall_full_mem ps n Hi).
   destruct (valid_port n); reflexivity.
 Qed.
 Lemma cs_check_all_wf c : cs_wf c -> cs_wf (cs_check_all c).
@@ -820,7 +847,7 @@ Proof.
   split.
   - intros Hall. destruct (cs_all c) eqn:Ea; [reflexivity|exfalso].
     assert (Ht : cs_is_all_without_allowall c = true).
-    { apply cs_iawa_spec. split; [exact Ea|]. intros p.
+    { apply cs_iawa_intro; [exact Ea|]. intros p.
       assert (Hm : forall n, valid_port n = true -> opt_mem (cs_get c p) n = true).
       { intros n Hv. specialize (Hall p n Hv). rewrite cs_denote_eq, Ea, Hv in Hall.
         exact Hall. }
@@ -937,8 +964,8 @@ Proof.
   - intros p. rewrite cs_get_make. apply opt_P_none.
   - intros _ p. apply cs_get_make.
   - destruct (cs_is_all_without_allowall (cs_make all)) eqn:E; [|reflexivity].
-    apply cs_iawa_spec in E. destruct E as [_ E]. specialize (E TCP).
-    rewrite cs_get_make in E. discriminate E.
+    apply cs_iawa_gen in E. destruct E as [_ E]. destruct (E TCP) as (ps & E1 & _).
+    rewrite cs_get_make in E1. discriminate E1.
 Qed.
 
 Lemma cs_check_all_ninv c : cs_good c -> cs_all c = false -> cs_ninv (cs_check_all c).
@@ -981,10 +1008,13 @@ Proof.
     + intros p. rewrite cs_get_map. apply inter_entry_good. exact (Hgc p).
     + rewrite cs_all_map, Eac. intros Ht. discriminate Ht.
     + match goal with |- ?b = false => destruct b eqn:E; [exfalso|reflexivity] end.
-      apply cs_iawa_spec in E. destruct E as [_ E].
+      apply cs_iawa_gen in E. destruct E as [_ E].
       assert (Ht : cs_is_all_without_allowall c = true).
-      { apply cs_iawa_spec. split; [exact Eac|]. intros p. specialize (E p).
-        rewrite cs_get_map in E. exact (inter_entry_full _ _ (Hgc p) E). }
+      { apply cs_iawa_intro; [exact Eac|]. intros p. destruct (E p) as (ps & E1 & Hi). rewrite cs_get_map in E1.
+        assert (Hps : ps = ps_make true).
+        { pose proof (inter_entry_good _ (cs_get o p) (Hgc p)) as Hg'. rewrite E1 in Hg'.
+          destruct (Hg' ps eq_refl) as (_ & Hnum & _). apply (ps_isall_spec ps (proj1 Hnum)). exact Hi. }
+        subst ps. exact (inter_entry_full _ _ (Hgc p) E1). }
       rewrite Ht in Hic. discriminate Hic.
 Qed.
 
@@ -1008,10 +1038,14 @@ Proof.
     intros ps E. apply (Hgo p ps E).
   - rewrite cs_all_map, Ha1. intros Ht. discriminate Ht.
   - match goal with |- ?b = false => destruct b eqn:E; [exfalso|reflexivity] end.
-    apply cs_iawa_spec in E. destruct E as [_ E].
+    apply cs_iawa_gen in E. destruct E as [_ E].
     assert (Ht : cs_isempty o = true).
-    { apply cs_isempty_spec. split; [exact Eao|]. intros p. specialize (E p).
-      rewrite cs_get_map in E. exact (sub_entry_full _ _ (Hg1 p) (Hgo p) E). }
+    { apply cs_isempty_spec. split; [exact Eao|]. intros p. destruct (E p) as (ps & E1 & Hi). rewrite cs_get_map in E1.
+      assert (Hps : ps = ps_make true).
+      { assert (Hg' : opt_P ps_good (sub_entry (cs_get c1 p) (cs_get o p))).
+        { apply sub_entry_good; [exact (Hg1 p)|]. intros x Ex. apply (Hgo p x Ex). }
+        rewrite E1 in Hg'. destruct (Hg' ps eq_refl) as (_ & Hnum & _). apply (ps_isall_spec ps (proj1 Hnum)). exact Hi. }
+      subst ps. exact (sub_entry_full _ _ (Hg1 p) (Hgo p) E1). }
     rewrite Ht in Eeo. discriminate Eeo.
 Qed.
 
